@@ -196,6 +196,32 @@ func fullSiteNames(k kase) map[string]bool {
 	return m
 }
 
+var groupNames = map[string]map[string]string{}
+
+// groupOf: the page group (individuals, places, ...) that generates the file, found by publishing the
+// document with each group switched on alone.
+func groupOf(k kase, target string) string {
+	key := k.Doc + "|" + k.Living
+	m, ok := groupNames[key]
+	if !ok {
+		m = map[string]string{}
+		for g, name := range pub.Groups {
+			ghtml.VerifResetSurnames()
+			w, _ := pub.Publish(decode(k.Doc), pub.Options(1<<uint(g), vis(k.Living)), 1, 0)
+			for _, p := range w.Pages {
+				if _, dup := m[p.Name]; !dup {
+					m[p.Name] = name
+				}
+			}
+		}
+		groupNames[key] = m
+	}
+	if g, ok := m[target]; ok {
+		return g
+	}
+	return "unknown-group"
+}
+
 func judgeNames(k kase) (fs []finding) {
 	add := func(sig, what string) {
 		for _, f := range fs {
@@ -258,7 +284,7 @@ func judgeNames(k kase) (fs []finding) {
 			}
 			if _, ok := names[target]; !ok {
 				if k.Mask != 63 && fullSiteNames(k)[target] {
-					add("dangling-link:to-page-of-a-disabled-group:"+pageClass(p.Name), fmt.Sprintf("%s links to %q, a page of a group that is switched off (doc %s, mask %d, %s)", p.Name, l, k.Doc, k.Mask, k.Living))
+					add("dangling-link:to-page-of-a-disabled-group:"+pageClass(p.Name)+"->"+groupOf(k, target), fmt.Sprintf("%s links to %q, a page of a group that is switched off (doc %s, mask %d, %s)", p.Name, l, k.Doc, k.Mask, k.Living))
 					continue
 				}
 				kind := "other"
@@ -294,7 +320,9 @@ func judgeNames(k kase) (fs []finding) {
 		})
 		// earlier publishing into the same directory: another site is published first, then this
 		// document over it; every file of this document must hold exactly this document's page
-		if k.Living == "show" && len(w.Pages) > 0 {
+		// (not on the hostile documents: with colliding place keys which place gets the page follows map
+		// order - the known collision findings - and the comparison would alarm at random)
+		if k.Living == "show" && len(w.Pages) > 0 && hostile(k.Doc) == "" {
 			other := "D2"
 			if k.Doc == "D2" {
 				other = "D6"
